@@ -9,6 +9,7 @@ mod h_assert;
 mod h_cmp;
 mod h_html;
 mod h_list;
+mod h_parse;
 mod session;
 mod sym;
 mod units;
@@ -27,6 +28,7 @@ const ENTRIES: &[(&str, Entry)] = &[
     ("h_c21_assert", h_assert::h_c21_assert),
     ("h_c21_eq2", h_assert::h_c21_eq2),
     ("h_c21_eq3", h_assert::h_c21_eq3),
+    ("h_c10_parse", h_parse::h_c10_parse),
     ("h_c18_step", h_list::h_c18_step),
     ("h_c18_hist", h_list::h_c18_hist),
 ];
